@@ -875,15 +875,34 @@ where
     w: StreamCipherCoreWrapper<T>,
     key: Vec<u8>,
     iv: Vec<u8>,
+    /// the first `n` keystream bytes of a fresh object constructed through the crate's *public alias* for this type
+    /// (`ctr::Ctr32BE<C>`, …, `ofb::Ofb<C>`, `belt_ctr::BeltCtr<C>`) — what users name; op `aliasks n`
+    alias_ks: Option<AliasKs>,
+}
+
+pub type AliasKs = fn(&[u8], &[u8], usize) -> Vec<u8>;
+
+/// keystream through a public alias type `$A` (used at a call site where the cipher type is concrete)
+#[macro_export]
+macro_rules! alias_ks {
+    ($A:ty) => {
+        |k: &[u8], v: &[u8], n: usize| -> Vec<u8> {
+            use cipher::{KeyIvInit, StreamCipher};
+            let mut c = <$A as KeyIvInit>::new(k.try_into().unwrap(), v.try_into().unwrap());
+            let mut b = vec![0u8; n];
+            c.apply_keystream(&mut b);
+            b
+        }
+    };
 }
 
 impl<T: CoreKind> StreamObj<T>
 where
     StreamCipherCoreWrapper<T>: StreamCipherSeekMaybe + Debug,
 {
-    pub fn new(key: &[u8], iv: &[u8]) -> Box<dyn Obj> {
+    pub fn new_alias(key: &[u8], iv: &[u8], alias_ks: AliasKs) -> Box<dyn Obj> {
         let w = <StreamCipherCoreWrapper<T> as KeyIvInit>::new(key.try_into().unwrap(), iv.try_into().unwrap());
-        Box::new(Self { w, key: key.to_vec(), iv: iv.to_vec() })
+        Box::new(Self { w, key: key.to_vec(), iv: iv.to_vec(), alias_ks: Some(alias_ks) })
     }
 }
 
@@ -892,7 +911,7 @@ where
     StreamCipherCoreWrapper<T>: StreamCipherSeekMaybe + Debug,
 {
     fn boxed_clone(&self) -> Option<Box<dyn Obj>> {
-        Some(Box::new(Self { w: T::maybe_clone_wrapper(&self.w)?, key: self.key.clone(), iv: self.iv.clone() }))
+        Some(Box::new(Self { w: T::maybe_clone_wrapper(&self.w)?, key: self.key.clone(), iv: self.iv.clone(), alias_ks: self.alias_ks }))
     }
     fn as_any(&self) -> &dyn core::any::Any {
         self
@@ -936,6 +955,13 @@ where
                 Some(v) => line(format!("rem {}", v)),
                 None => line("rem none".into()),
             },
+            ["aliasks", n] => {
+                let Ok(k) = n.parse::<usize>() else { return bad() };
+                match self.alias_ks {
+                    Some(f) => line(format!("out {}", hex(&f(&self.key, &self.iv, k)))),
+                    None => bad(),
+                }
+            }
             ["corestate"] => line(format!("state {}", hex(&self.w.get_core().iv_state()))),
             ["fromcore", n] => {
                 let Ok(p) = n.parse::<u128>() else { return bad() };
